@@ -17,17 +17,23 @@ def _ok(t, variant):
 
 def run(ctx):
     cfg = "H1"
+    r1 = ctx.rule("R14.1", "empty output -> Err(Buf) before any call, no write through the compressor", floor=1, config=cfg)
+    r2 = ctx.rule("R14.2", "after Done: Finish -> StreamEnd (0,0), otherwise Err(Buf), both without compressing", floor=2, config=cfg)
+    r3 = ctx.rule("R14.3", "per-iteration exit table of deflate()", floor=6, config=cfg)
+    r5 = ctx.rule("R14.5", "counts are sums of compress() results; slices advance by exactly those counts", floor=3, config=cfg)
+    r4 = ctx.rule("R14.4", "non-Finish after Finish -> BadParam; Done only from flush_output_buffer under finished ∧ nothing pending", floor=6, config=cfg)
+    deflate_table(ctx, cfg, r1, r2, r3, r5)
+    dp.rule_sticky(ctx, cfg, r4)
+    dp.rule_done_origin(ctx, cfg, r4)
+
+
+def deflate_table(ctx, cfg, r1, r2, r3, r5):
     c = ctx.crate(cfg)
     f = c.fn("deflate::stream::deflate")
     ctx.touched(f)
     fn = f.name
     TS = discrs(c, "TDEFLStatus")
     MF = discrs(c, "MZFlush")
-    r1 = ctx.rule("R14.1", "empty output -> Err(Buf) before any call, no write through the compressor", floor=1, config=cfg)
-    r2 = ctx.rule("R14.2", "after Done: Finish -> StreamEnd (0,0), otherwise Err(Buf), both without compressing", floor=2, config=cfg)
-    r3 = ctx.rule("R14.3", "per-iteration exit table of deflate()", floor=6, config=cfg)
-    r5 = ctx.rule("R14.5", "counts are sums of compress() results; slices advance by exactly those counts", floor=3, config=cfg)
-    r4 = ctx.rule("R14.4", "non-Finish after Finish -> BadParam; Done only from flush_output_buffer under finished ∧ nothing pending", floor=6, config=cfg)
 
     ev = paths.Evaluator(c, inline=["StreamResult::error", "CompressorOxide::prev_return_status"], effects=ctx.effects(cfg))
     rows = ev.run(f)
@@ -173,5 +179,3 @@ def run(ctx):
             r5.ok(w.name, "wrapper", "compress() returns compress_inner's triple unchanged")
         else:
             r5.fail(w.name, "wrapper", "compress() must forward to compress_inner and return its result: %s" % row.describe())
-    dp.rule_sticky(ctx, cfg, r4)
-    dp.rule_done_origin(ctx, cfg, r4)
